@@ -32,9 +32,12 @@ class VariantCheck(Check):
     assumptions = [
         "tier A holds the class to the search contract on every recorded query and to what the property says about its top structure (bucket slice / Elias-Fano predecessor)",
         "keys are offset- or rank-normalised for TLC's 32-bit integers (the contract only needs order and equality)"]
-    rule = ("traces: every array of S(8,5)/S(6,4) at three placements in the key type plus structured generators (duplicate runs, saw-tooth, collinear, steps, random; "
-            "at lowest(), ending at max-1, wide spread) for the listed template configurations; queries: sampled present keys, key+-1, gap midpoints, first-1, first-2, "
-            "last, last+1, last+2, lowest, max-1, powers of two away")
+    rule = ("traces: every array of S(8,5)/S(6,4) at three placements in the key type (every second one of >= 4 keys also with a first level forced into 2-3 chunks, "
+            "Bucketing / Elias-Fano only) plus structured generators (duplicate runs, saw-tooth, collinear, steps, random, convex curves, curve + far key + dense run, "
+            "irregular dense clusters separated by gaps of 2^18..2^26, seams of forced and of the library's own chunked builds; at lowest(), ending at max-1, wide spread, "
+            "clustered 64-bit, full span) for the listed template configurations, incl. levels much longer than the routing window; queries: sampled present keys, "
+            "key+-1, gap midpoints, both sides of the widest gaps, bucket boundaries, chunk boundaries, first-1, first-2, first, 0, last, last+1, last+2, lowest, max-1, "
+            "powers of two away; each query plan repeats queries and asks boundary queries as the first query of a copy taken before any query")
 
     def variant_models(self, tier, work):
         return []
